@@ -965,7 +965,12 @@ fn main() {
                         places: vec![JPlace {
                             location: Some(t["loc"].as_u64().unwrap() as usize),
                             duration: num(&t["dur"]),
-                            times: vec![TimeSpan::Window(TimeWindow::new(num(&t["tws"]), num(&t["twe"])))],
+                            times: match t.get("windows").and_then(|w| w.as_array()) {
+                                Some(windows) => {
+                                    windows.iter().map(|w| TimeSpan::Window(TimeWindow::new(num(&w[0]), num(&w[1])))).collect()
+                                }
+                                None => vec![TimeSpan::Window(TimeWindow::new(num(&t["tws"]), num(&t["twe"])))],
+                            },
                         }],
                         dimens,
                     })
